@@ -52,6 +52,10 @@ class EngineStream(Stream):
                    "gap_in_lagging_input_at_startup" if case.get("kind") == "startup_gap" else "off_grid(outside the property)")
         for k in case.get("perturb", []):
             out.append(f"perturb={k}")
+        if case.get("resampled"):
+            out.append("ResampledFormulaBuilder.from_string")
+        if case.get("tz_hours"):
+            out.append("non_UTC_timestamps")
         if case.get("kind") == "stall":
             w = sum(a[1] for a in case["sched"] if a[0] == "w")
             out.append("stall>60s" if w > 60 else "stall<=60s")
